@@ -165,14 +165,6 @@ theorem date_fits (d : Date) : fitsKind .date d.obj = true := by
 theorem numtree_fits (t : Tree Int) : fitsKind .numTree (Tree.obj CatalogRules.kNums Obj.int t) = true := by
   simp [fitsKind, tree_obj_int]
 
-theorem namesdict_fits (c : CatOpts) (v : Obj) (h : namesDict c = some v) :
-    fitsKind .nameDict v = true := by
-  have hk : kDests ≠ kEmbeddedFiles := by decide
-  have hk' : kEmbeddedFiles ≠ kDests := by decide
-  unfold namesDict at h
-  cases hd : c.dests <;> cases he : c.embeddedFiles <;> simp [hd, he] at h <;> subst h <;>
-    simp [fitsKind, nameTreeKeys, optEnt, ObjL.get, hk, hk', tree_obj_str]
-
 theorem name_in_fits (l : List Bytes) (i : Nat) (h : i < l.length) :
     fitsKind (.nameIn l) (nameAt l i) = true := by
   simp [fitsKind, nameAt, List.getD, List.getElem?_eq_getElem h]
